@@ -144,14 +144,56 @@ let () =
          sts.(k) <- s';
          if ok then [Printf.sprintf "leak %d" (int_of_z s'.lost_fds + (if s'.fd_open then 1 else 0))] else ["hang"]) in
        emit_all outs
-     | ["tight"; en; vo; suf; what; path] ->
+     | "tight" :: en :: vo :: suf :: rest ->
        let _ = take_env () in
        print_endline "tight";
        let ftproot = bytes_of_string (root ^ "/sb" ^ unhex suf) in
-       let tg fx = match tight_target fx true (en = "1") (vo = "1") ftproot (hb path) with
-         | None -> "target none" | Some t -> "target " ^ hex_of_bytes t in
-       print_endline (tg true);
-       if tg true <> tg false then print_endline ("alt1 " ^ tg false)
+       (* results of creat() recorded from the implementation run: last token "creat:<digits>" *)
+       let (pairs, creats) =
+         match List.rev rest with
+         | c :: r when String.length c >= 6 && String.sub c 0 6 = "creat:" ->
+           (List.rev r, String.sub c 6 (String.length c - 6))
+         | _ -> (rest, "") in
+       let ci = ref 0 in
+       let next_creat () = let r = (!ci < String.length creats && creats.[!ci] = '1') in incr ci; r in
+       let rec msgs = function
+         | kind :: arg :: tl ->
+           let m = (match kind with
+             | "list" -> Some (TList (hb arg)) | "mkdir" -> Some (TMkdir (hb arg))
+             | "download" -> Some (TDownload (hb arg))
+             | "upload" -> Some (TUpload (hb arg, true))
+             | "uploaddata" -> Some (TUploadData false) | "uploaddatac" -> Some (TUploadData true)
+             | "uploaddone" -> Some TUploadDone
+             | "uploadfail" -> Some (TUploadFailed (arg <> "-"))
+             | "dlcancel" -> Some TDownloadCancel
+             | _ -> None) in
+           (kind, m) :: msgs tl
+         | _ -> [] in
+       let op_line = function
+         | TStat p -> "fs stat " ^ hex_of_bytes p | TOpendir p -> "fs opendir " ^ hex_of_bytes p
+         | TOpenR p -> "fs openr " ^ hex_of_bytes p | TCreat p -> "fs creat " ^ hex_of_bytes p
+         | TUtime p -> "fs utime " ^ hex_of_bytes p | TUnlink p -> "fs unlink " ^ hex_of_bytes p
+         | TMkdirOp p -> "fs mkdir " ^ hex_of_bytes p in
+       let gate = tight_gate true (en = "1") (vo = "1") in
+       let sta = ref tstate0 and stb = ref tstate0 in
+       List.iter (fun (kind, m) ->
+           print_endline ("m " ^ kind);
+           match m with
+           | None -> ()
+           | Some m0 when gate ->
+             (* the creat() result applies to a request that reaches creat in the tree variant *)
+             let m1 = (match m0 with
+                 | TUpload (n, _) ->
+                   let (ops, _) = tight_step v_tight_tree ftproot !sta (TUpload (n, true)) in
+                   if ops <> [] then TUpload (n, next_creat ()) else m0
+                 | x -> x) in
+             let (oa, sa) = tight_step v_tight_tree ftproot !sta m1 in
+             let (ob, sb) = tight_step v_tight_fixed ftproot !stb m1 in
+             sta := sa; stb := sb;
+             let la = List.map op_line oa and lb = List.map op_line ob in
+             List.iter print_endline la;
+             if la <> lb then (print_endline "alt1 -"; List.iter (fun l -> print_endline ("alt1 " ^ l)) lb)
+           | Some _ -> ()) (msgs pairs)
      | ["translate"; hm; p] ->
        (match translate_pure (if hm = "none" then None else Some (hb hm)) (hb p) (z_of_int 260) with
         | None -> print_endline "translate none"
